@@ -123,24 +123,3 @@ Proof.
     destruct (IH (c + length s) (S i0) j q Hc' H) as [i [s' [E1 [E2 [E3 E4]]]]].
     exists (S i), s'. cbn [nth_error firstn concat]. rewrite app_length. repeat split; try assumption; lia.
 Qed.
-Theorem insert_pos_spec elem p evs evs' : (0 <= p)%Z -> insert_ elem (WPos p) evs = Some evs' ->
-  exists pre post, evs' = pre ++ elem ++ post /\ raw pre = firstn (Z.to_nat p) (raw evs) /\ raw pre ++ raw post = raw evs.
-Proof.
-  intros Hp H. cbn [insert_] in H. destruct (Z.ltb_spec p 0); [lia|].
-  destruct (sel_pos (Z.to_nat p) 0 0 (texts evs)) as [[j q]|] eqn:E; [|discriminate]. injection H as <-.
-  destruct (sel_pos_spec _ _ 0 0 j q (Nat.le_0_l _) E) as [i [s [E1 [E2 [E3 E4]]]]]. cbn in E1. subst i.
-  destruct (subst_nth_split (split_ins elem q) evs j s E2) as [pre [post [F1 [F2 F3]]]].
-  exists (pre ++ otxt (netxt (firstn q s))), (Txt (skipn q s) :: post).
-  assert (RP : raw pre = concat (firstn j (texts evs))) by (unfold raw; now rewrite F2).
-  assert (RO : raw (otxt (netxt (firstn q s))) = firstn q s)
-    by (destruct (firstn q s); [reflexivity|unfold raw; cbn [netxt otxt texts concat]; apply app_nil_r]).
-  assert (RE : raw evs = raw pre ++ s ++ raw post) by (rewrite F1 at 1; now rewrite raw_app).
-  split; [rewrite F3; unfold split_ins; rewrite <- !app_assoc; reflexivity|].
-  split.
-  - rewrite raw_app, RO, RE. rewrite E3. cbn [plus]. rewrite <- RP.
-    rewrite firstn_app. rewrite (firstn_all2 (raw pre)) by lia.
-    replace (length (raw pre) + q - length (raw pre)) with q by lia.
-    rewrite firstn_app. replace (q - length s) with 0 by lia. cbn [firstn]. now rewrite app_nil_r.
-  - rewrite raw_app, RO, RE. change (raw (Txt (skipn q s) :: post)) with (skipn q s ++ raw post).
-    rewrite <- !app_assoc. f_equal. now rewrite app_assoc, firstn_skipn.
-Qed.
